@@ -45,7 +45,7 @@ func init() {
 		r := ev.Start("C02", ev.LevelMC, 100*time.Second, 15*time.Minute)
 		e := &lx.SeqExplorer{
 			Ledgers:  []lx.LedgerSpec{{Name: "l1"}},
-			Alphabet: coreAlphabet(),
+			Alphabet: append(coreAlphabet(), retriedOps()...),
 			Depth:    ev.Pick(r, 3, 4),
 			Restart:  true,
 			Sigs:     []string{"acc:volumes", "acc:get-volumes", "acc:effective-volumes", "vol:", "agg:", "read:", "ref:"},
